@@ -1505,10 +1505,16 @@ func (fv *FV) havocAllExcept(st *State, m modLoc, tag string) {
 			if m.exceptMaps[tk] {
 				continue
 			}
-			st.heap.arrays[key] = fv.fresh(tag+"_all_map", st.heap.arrays[key].Sort)
-		case key == "MAPLEN":
 			cur := st.heap.arrays[key]
-			st.heap.arrays[key] = fv.fresh(tag+"_all_maplen", cur.Sort)
+			if cur == nil {
+				cur = keyInit[key]
+			}
+			if cur == nil {
+				continue
+			}
+			st.heap.arrays[key] = fv.fresh(tag+"_all_map", cur.Sort)
+		case key == "MAPLEN":
+			st.heap.arrays[key] = fv.fresh(tag+"_all_maplen", ArraySort(RefSort, IntSort))
 		}
 	}
 	for name, g := range fv.P.Specs.GhostV {
